@@ -254,6 +254,46 @@ def check_structure(rng):
     return bad, dict(d=d, n=n, kp=kp, kr=kr, one_d=bool(one_d), reuse=n_reuse)
 
 
+def check_highdim(rng):
+    """Many coordinates and index arrays of every integer dtype (a caller who keeps its index sets in compact arrays): designated
+    coordinates folded, the others untouched, bounds check on exactly the others."""
+    from tempest.mcmc import apply_boundary_conditions, check_bounds
+    bad = []
+    d = int(rng.choice([70, 127, 128, 129, 200, 255, 256, 300]))
+    idx = rng.permutation(d)
+    kp = int(rng.integers(1, d // 2))
+    kr = int(rng.integers(1, d // 2))
+    per, ref = np.sort(idx[:kp]), np.sort(idx[kp:kp + kr])
+    dts = [np.int64, np.int32, np.int16, np.uint16, np.uint32, np.uint64, np.intp]
+    if d <= 256:
+        dts.append(np.uint8)
+    if d <= 128:
+        dts.append(np.int8)
+    dt = dts[int(rng.integers(len(dts)))]
+    P, Rf = per.astype(dt), ref.astype(dt)
+    x = rng.uniform(-1.5, 2.5, (4, d))
+    with np.errstate(all="ignore"):
+        out = np.asarray(apply_boundary_conditions(x.copy(), P, Rf))
+        exp = np.asarray(apply_boundary_conditions(x.copy(), [int(v) for v in per], [int(v) for v in ref]))
+    other = np.setdiff1d(np.arange(d), np.concatenate([per, ref]))
+    if out.tobytes() != exp.tobytes():
+        j = np.argwhere(out != exp)[0]
+        bad.append(("index-dtype-dependent", f"d={d}, index arrays of dtype {np.dtype(dt).name}: coordinate {int(j[1])} comes out as {out[tuple(j)]!r}, with the same indices as a "
+                    f"Python list as {exp[tuple(j)]!r}", dict(d=d, dtype=np.dtype(dt).name)))
+    elif np.any(out[:, per] < 0) or np.any(out[:, per] > 1) or np.any(out[:, ref] < 0) or np.any(out[:, ref] > 1) or not np.array_equal(out[:, other], x[:, other]):
+        bad.append(("index-dtype-dependent", f"d={d}, dtype {np.dtype(dt).name}: designated coordinates not folded / others touched", dict(d=d)))
+    y = rng.random((6, d))
+    y[0, per[0]] = 1.7          # outside only in a designated coordinate: accepted
+    y[1, other[0]] = -0.2       # outside in an ordinary coordinate: rejected
+    y[2, ref[-1]] = -3.0
+    y[3, other[-1]] = 1.0000001
+    cb = np.asarray(check_bounds(y, P, Rf)).astype(bool)
+    expcb = np.all((y[:, other] >= 0) & (y[:, other] <= 1), axis=1)
+    if not np.array_equal(cb, expcb):
+        bad.append(("check-bounds", f"d={d}, index arrays of dtype {np.dtype(dt).name}: check_bounds={cb.tolist()} expected {expcb.tolist()}", dict(d=d, dtype=np.dtype(dt).name)))
+    return bad, dict(d=d, dtype=np.dtype(dt).name, highdim=1)
+
+
 def _batch(seed, start, count, nvals):
     os.environ["VERIF_SEED"] = str(seed)
     ck = Check("C16")
@@ -275,6 +315,13 @@ def _batch(seed, start, count, nvals):
             except Exception:
                 bad, desc = [("exception", fmt_exc(), None)], {}
             res.append(("struct", (i, j), desc, 1, bad, None))
+        for j in range(6):
+            r3 = ck.rng("highdim", i, j)
+            try:
+                bad, desc = check_highdim(r3)
+            except Exception:
+                bad, desc = [("exception", fmt_exc(), None)], dict(highdim=1)
+            res.append(("struct", (i, 1000 + j), desc, 1, bad, None))
     return res
 
 
@@ -305,6 +352,7 @@ def run():
                 _, idx, desc, n, bad, _ = rec
                 ck.case(dict(struct=desc), nontrivial=bool(desc.get("kp", 0) + desc.get("kr", 0)))
                 ck.event("structure case (untouched coords / 1-D vs 2-D / check_bounds)")
+                ck.event("cases with 70..300 coordinates and index arrays of int8..uint64 dtype", desc.get("highdim", 0))
                 ck.event("calls with index containers the caller had edited in place since the previous call", desc.get("reuse", 0))
                 for key, what, wit in bad:
                     ck.violation(key, what, dict(stream=["struct"] + list(idx), detail=wit))
